@@ -29,7 +29,8 @@ ASSUMPTIONS = [
 ]
 BUDGET = {"quick": 260, "thorough": 6000}
 PROFILE_CAL = gen.profile(crops=list(gen.CAL_CROPS) + ["Potato", "SugarBeet", "Tomato", "Quinoa"], seasons=(1, 3), max_days=650, p_custom_soil=0.15, p_gw=0.15, p_fm=0.3, pad=(0, 5))
-PROFILE_ANY = gen.profile(seasons=(1, 2), max_days=650, p_gdd=0.5, p_custom_soil=0.15, p_gw=0.15, p_fm=0.3, pad=(0, 5))
+PROFILE_ANY = gen.profile(seasons=(1, 2), max_days=650, p_gdd=0.5, p_custom_soil=0.15, p_gw=0.15, p_fm=0.3, pad=(0, 5), p_co2=0.5,
+                          co2_kinds=["table", "table", "const"], start_years=(1995, 2032))
 
 
 @st.composite
